@@ -10,6 +10,5 @@ trap 'git -C /repo worktree remove --force '$wt EXIT
 git -C $wt apply "$patch" || { echo "patch does not apply"; exit 2; }
 for c in "$@"; do
 	echo "=== $c on $(basename $(dirname $patch))"
-	(cd /verif && VERIF_REPO=$wt ./run.sh $c ${TIER:-quick} 2>&1 | grep -v "^  path" | cut -c1-300 | tail -${LINES_OUT:-4})
-	git -C /verif checkout -q -- evidence/$c.json
+	(cd /verif && VERIF_EVIDENCE_DIR=/tmp/seed-evidence VERIF_REPO=$wt ./run.sh $c ${TIER:-quick} 2>&1 | grep -v "^  path" | cut -c1-300 | tail -${LINES_OUT:-4})
 done
